@@ -19,6 +19,25 @@ static size_t g_cur_n; static bool g_warm;
 
 /* ---- driver ------------------------------------------------------------------------- */
 static int tw(int pt, int tl) { return pt == 6 ? (int)sizeof(carquet_byte_array_t) : ref_type_width(pt, tl); }
+/* fresh: the batch was just returned.  Byte-array payloads live in the column reader's page buffers, which the library
+ * documents as replaced by the following read; they are only read while the batch is fresh. */
+static void touch_batch(carquet_row_batch_t* b, int pj, int ncols, int nleaf, const int* leaf_pt, const int* leaf_tl, bool fresh) {
+    int nc = carquet_row_batch_num_columns(b); (void)carquet_row_batch_num_rows(b);
+    for (int c = 0; c < nc && c < 8; c++) {
+        const void* data; const uint8_t* nulls; int64_t cnt;
+        if (carquet_row_batch_column(b, c, &data, &nulls, &cnt) != CARQUET_OK) continue;
+        volatile uint8_t s = 0;
+        if (nulls) for (int64_t i = 0; i < (cnt + 7) / 8 && i < 4096; i++) s ^= nulls[i];
+        int fc = pj ? ncols - 1 : c;
+        if (nleaf == ncols && fc >= 0 && fc < nleaf && data) {
+            int64_t nn = 0; for (int64_t i = 0; i < cnt && nulls; i++) if (!((nulls[i >> 3] >> (i & 7)) & 1)) nn++;
+            if (leaf_pt[fc] != 6) { int w = tw(leaf_pt[fc], leaf_tl[fc]); if (w > 0 && w <= 4096) for (int64_t i = 0; i < nn * w && i < 1 << 16; i++) s ^= ((const uint8_t*)data)[i]; }
+            else { const carquet_byte_array_t* ba = (const carquet_byte_array_t*)data;
+                for (int64_t i = 0; i < nn && i < 4096; i++) { if (ba[i].length < 0) { mc_fail("batch.negative-byte-array-length", "column %d value %lld of %lld non-null / %lld rows: length %d, fresh=%d", c, (long long)i, (long long)nn, (long long)cnt, ba[i].length, (int)fresh); break; } if (fresh && ba[i].length > 0) { s ^= ba[i].data[0]; s ^= ba[i].data[ba[i].length - 1]; } } }
+        }
+        (void)s;
+    }
+}
 static void drive(carquet_reader_t* rd, const char* mode) {
     carquet_error_t err = CARQUET_ERROR_INIT; char key[160];
     int64_t rows = carquet_reader_num_rows(rd); int nrg = carquet_reader_num_row_groups(rd), ncols = carquet_reader_num_columns(rd); (void)rows;
@@ -72,15 +91,19 @@ static void drive(carquet_reader_t* rd, const char* mode) {
     for (int bi = 0; bi < 3; bi++) for (int pj = 0; pj < 2; pj++) {
         carquet_batch_reader_config_t cfg; carquet_batch_reader_config_init(&cfg); if (BS[bi]) cfg.batch_size = BS[bi]; cfg.num_threads = 1; int32_t pr[1] = { ncols - 1 }; if (pj && ncols > 0) { cfg.column_indices = pr; cfg.num_columns = 1; }
         carquet_batch_reader_t* br = carquet_batch_reader_create(rd, &cfg, &err); if (!br) continue;
+        /* a batch belongs to the caller until it frees it: the previous one is read again after the following next(),
+         * the last one after the batch reader is gone */
+        carquet_row_batch_t* held = NULL;
         for (int guard = 0; guard < 40; guard++) {
-            carquet_row_batch_t* b = NULL; carquet_status_t st = carquet_batch_reader_next(br, &b); if (st != CARQUET_OK || !b) break;
-            int64_t r = carquet_row_batch_num_rows(b); int nc = carquet_row_batch_num_columns(b);
-            for (int c = 0; c < nc && c < 8; c++) { const void* data; const uint8_t* nulls; int64_t cnt; if (carquet_row_batch_column(b, c, &data, &nulls, &cnt) != CARQUET_OK) continue; volatile uint8_t s = 0; if (nulls) for (int64_t i = 0; i < (cnt + 7) / 8 && i < 4096; i++) s ^= nulls[i];
-                int fc = pj ? ncols - 1 : c; if (nleaf == ncols && fc >= 0 && fc < nleaf && leaf_pt[fc] != 6 && data) { int w = tw(leaf_pt[fc], leaf_tl[fc]); int64_t nn = 0; for (int64_t i = 0; i < cnt && nulls; i++) if (!((nulls[i >> 3] >> (i & 7)) & 1)) nn++; if (w > 0 && w <= 4096) for (int64_t i = 0; i < nn * w && i < 1 << 16; i++) s ^= ((const uint8_t*)data)[i]; } (void)s; }
-            (void)carquet_row_batch_column(b, -1, &(const void*){ 0 }, &(const uint8_t*){ 0 }, &(int64_t){ 0 }); (void)r;
-            carquet_row_batch_free(b);
+            carquet_row_batch_t* b = NULL; carquet_status_t st = carquet_batch_reader_next(br, &b);
+            if (held) { touch_batch(held, pj, ncols, nleaf, leaf_pt, leaf_tl, false); carquet_row_batch_free(held); held = NULL; }
+            if (st != CARQUET_OK || !b) break;
+            touch_batch(b, pj, ncols, nleaf, leaf_pt, leaf_tl, true);
+            (void)carquet_row_batch_column(b, -1, &(const void*){ 0 }, &(const uint8_t*){ 0 }, &(int64_t){ 0 });
+            held = b;
         }
         carquet_batch_reader_free(br);
+        if (held) { touch_batch(held, pj, ncols, nleaf, leaf_pt, leaf_tl, false); carquet_row_batch_free(held); }
     }
 }
 
@@ -89,6 +112,7 @@ static void try_image_inner(const uint8_t* img, size_t n, const char* what) {
     mc_budget_ms((unsigned)(600 + n / 2));
     FILE* f = fopen(g_path, "wb"); if (!f || fwrite(img, 1, n, f) != n) mc_harness_error("scratch write failed"); fclose(f);
     uint8_t* x = mc_exact(img, n);
+    { const char* dp = getenv("C04_DUMPIMG"); if (dp) { FILE* df = fopen(dp, "wb"); if (df) { fwrite(img, 1, n, df); fclose(df); } } }
     for (int mode = 0; mode < 3; mode++) {
         carquet_error_t err = CARQUET_ERROR_INIT; carquet_reader_options_t o; carquet_reader_options_init(&o); o.use_mmap = mode == 2; o.verify_checksums = (n & 1) != 0;
         long live0 = mcf_live(); mcf_on();
